@@ -26,6 +26,7 @@ for d in seeded/$G/; do
     [ -z "$fp" ] && fp=$(echo "$out" | grep -o "REPLAY fingerprint=[^ ]*" | head -1 | sed 's/REPLAY fingerprint=//')
     runs=$(echo "$out" | grep -o "runs=[0-9]*" | head -1)
     case $rc in 1) v=caught;; 0) v=MISSED;; *) v="exit$rc";; esac
+    if [ $rc = 0 ] && grep -q neutralised_by $d/meta.json; then v="no longer a breakage (neutralised by a fix, see meta.json)"; fi
   fi
   echo "| $id | $C | $v | ${fp:-} | ${runs:-} |" >> seeded/RESULTS.md.new
   echo "$id $C $v $fp $runs"
